@@ -208,7 +208,9 @@ def replay_history(kind, hist, variant, extra=None, dn=None, prefix=None, **stac
 
 EXTRA_OPS = {"set-strval", "set-intval", "set-ukey", "get-ukey", "set-flags", "touch-kw", "get-many-empty", "gat-kw",
              "set-empty", "getitem-empty", "setitem", "getitem", "delitem", "getitem-miss", "set-none", "get-none",
-             "set-2char", "get-2char", "get-2byte", "gets-kwdefaults-miss", "gats-kwdefaults-miss", "incr-kwkey"}
+             "set-2char", "get-2char", "get-2byte", "gets-kwdefaults-miss", "gats-kwdefaults-miss", "incr-kwkey",
+             "append-exp-flags", "prepend-exp-flags", "set-tupleval", "get-tuple-default", "set-prefix-alias", "get-prefix-alias",
+             "get-many-prefix-alias", "delete-many-absent-first"}
 
 
 def do_extra(cl, ev, kind):
@@ -259,6 +261,26 @@ def do_extra(cl, ev, kind):
             r = cl.gets("never-set", default=DFLT, cas_default=CASDFLT)
         elif op == "gats-kwdefaults-miss":
             r = cl.gats("never-set", expire=9, default=DFLT, cas_default=CASDFLT)
+        elif op == "append-exp-flags":
+            r = cl.append("sv", b"+tail", expire=30, flags=5, noreply=False)
+        elif op == "prepend-exp-flags":
+            r = cl.prepend("sv", b"head+", expire=45, flags=6, noreply=False)
+        elif op == "set-tupleval":           # a tuple passed positionally stays a tuple on its way to the serializer
+            r = cl.set("tv", ("tu", 1), 0, False)
+        elif op == "get-tuple-default":
+            r = cl.get("never-set", ())
+            r = b"the-callers-tuple" if isinstance(r, tuple) and r == () else b"something-else"
+        elif op == "set-prefix-alias":       # a key whose own text begins with the configured prefix is still a different key
+            r = cl.set("pfx:a", b"aliased", noreply=False)
+        elif op == "get-prefix-alias":
+            r = cl.get("pfx:a", DFLT)
+        elif op == "get-many-prefix-alias":
+            r = cl.get_many(["a", "pfx:a"])
+        elif op == "delete-many-absent-first":
+            cl.set("dm2", b"x", noreply=False)
+            r = cl.delete_many(["never-set", "dm2"], noreply=False)
+            r = [r, cl.get("dm2", DFLT)]
+            r = r[0] is True and r[1] == DFLT
         elif op == "incr-kwkey":             # everything by keyword, on a value that is not a number: the same error everywhere
             r = cl.incr(key="sv", value=1, noreply=False)        # "sv" holds text (set-strval)
         else:
